@@ -24,20 +24,60 @@ ALLOWED_AXIOMS = []
 TRUSTED_BASE = [
     "coqc 8.16.1 kernel (vm_compute used for table facts and refutation witnesses; no native_compute)",
     "no axioms: every theorem of coq/C01/Properties.v is 'Closed under the global context'",
-    "translator harness/C01/scrape.py (regex scrape of the expression ladder of syntaxdefs.lua, priority[]/UNARY_PRIORITY of src/lua/lparser.c with the BinOpr order of lcode.h, cflags_base of cdefs.lua)",
+    "translator harness/C01/scrape.py (regex scrape of the expression ladder of syntaxdefs.lua, priority[]/UNARY_PRIORITY of src/lua/lparser.c with the BinOpr order of lcode.h, cflags_base of cdefs.lua for gcc and clang, position of the b == -1 line and the fast-path width of the shift operators in cbuiltins.lua, the emitter each statement of cgenerator.visitors.VarDecl is written to)",
+    "cross-property files: coq/C01/{CSem,Helpers}.v are COPIES of coq/C03/{CSem,Helpers}.v and coq/C01/VarDecl.v is a COPY of coq/C09/VarDecl.v, rewritten by checks/C01.py:sync_shared during gen (a change in coq/C03 or coq/C09 changes this check); coq/C01/Order.v is the source copied to coq/C09; harness/C01/scrape.py, progs.py and vardecl.py are also used by checks/C03.py and checks/C09.py",
     "extraction: Require Extraction + ExtrOcamlBasic only; ocaml/zutil.ml + coq/C01/driver.ml",
-    "harnesses: harness/C01/numdrv.nelua (compiled by the real compiler), harness/C01/numdrv.lua (reference interpreter rebuilt from /repo/src), harness/C01/progs.py (program generator, annotation eraser, AST printer parser)",
-    "modelled rather than verified: coq/C01/CSem.v (C integer semantics, UB = None), Helpers.v (cbuiltins helper bodies transcribed by hand), Model.v/Order.v; the tie is the correspondence run on every check",
+    "harnesses: harness/C01/numdrv.nelua (compiled by the real compiler), harness/C01/numdrv.lua (reference interpreter rebuilt from /repo/src), harness/C01/progs.py (program generator, annotation eraser, AST printer parser), harness/C01/vardecl.py",
+    "modelled rather than verified: coq/C01/CSem.v (C integer semantics, UB = None), Helpers.v (cbuiltins helper bodies transcribed by hand), Model.v/Order.v/VarDecl.v; the tie is the correspondence run on every check",
     "gcc 12 / clang 14 and libc (printf %.14g, floor, fmod, pow) are outside the model",
 ]
 ASSUMPTIONS = [
     "Lua VM integer semantics as written in coq/Base/LuaInt.v; lvm.c forprep/LTintfloat/LEintfloat/luaV_equalobj transcribed in coq/C01/Model.v",
-    "C dialect: LP64, two's complement, -fwrapv semantics for + - * unary- when the scraped base flags contain it; int64->double conversion rounds to nearest even (rne53)",
+    "C dialect: LP64, two's complement, -fwrapv semantics for + - * unary- when the scraped base flags of BOTH gcc and clang contain it; int64->double conversion rounds to nearest even (rne53)",
     "C's unsequenced evaluation is modelled as an oracle choosing an order of whole operands per operator/call node (no interleaving inside operands)",
     "float arithmetic // % ^ and number formatting are not modelled: covered by the differential stream only (testing)",
-    "statements other than numeric for, functions/multiple returns, require, strings: differential stream only (testing)",
+    "statements other than numeric for and multi-variable local declarations, functions/multiple returns, require, strings: differential stream only (testing)",
     "the sign of a printed NaN (`nan` / `-nan`) is not compared in the generated-program stream (unspecified by IEEE 754; the compile-time witness `print(0.0/0.0)` is compared exactly)",
 ]
+# clauses of the statement that no theorem covers (differential testing only, or nothing)
+UNPROVED = [
+    "no program-level theorem: the operator, comparison, for-loop, evaluation-order, declaration-order and precedence theorems are not composed into `every program of the shared subset prints what Lua prints`",
+    "float arithmetic (+ - * / on number, // % ^, mixed integer/float arithmetic, float -> integer conversions other than in comparisons): generated programs only",
+    "number formatting (tostring, .., print of floats: %.14g, integer-valued floats, inf/nan), string operations, string library: generated programs only (two open findings: 123456789012345.0 .. \"\", 0.0/0.0)",
+    "control flow other than the numeric for over integers (while, repeat, if, goto, break, float for loops), functions, closures, recursion, multiple returns, require: generated programs only",
+    "the identification of the PEG expression ladder of syntaxdefs.lua with the precedence-climbing function `climb` is unproved: C01_tables_agree is about two tables fed to the same algorithm; the real parser is compared with Lua's on generated chains (parse stream)",
+    "Order.v's expression language has no `and`/`or`, no method calls and no multiple-return calls: visitor_Call's other two `sequential` triggers (lastcallindex: a trailing multiple-return argument; tmpcallee: a method call on a non-identifier object) are not modelled, only exercised by generated programs",
+    "C01_order_preserved_partial needs `no_writes`: for expressions whose functions write variables the result depends on the C compiler (refuted, 4 open findings)",
+    "VarDecl.v models the order of the effects of a declaration only; visitors.Assign (multiple assignment) is covered by generated programs only",
+    "compile-time evaluation of constant expressions (the constant folder) is C02's subject; here only through the designated witness programs",
+    "integer types other than int64 (Nelua's `integer`), unsigned arithmetic: not part of the shared subset",
+]
+THEOREM_CLASSES = {
+    "C01_add_eq": "main", "C01_sub_eq": "main", "C01_mul_eq": "main", "C01_unm_eq": "main",
+    "C01_band_eq": "main", "C01_bor_eq": "main", "C01_bxor_eq": "main", "C01_bnot_eq": "main",
+    "C01_idiv_eq": "main", "C01_imod_eq": "main", "C01_div_by_zero_both_stop": "main",
+    "C01_shl_eq": "main", "C01_shr_eq": "main", "C01_cmp_eq": "main",
+    "C01_mixed_cmp_refuted": "refutation", "C01_mixed_cmp_partial": "main", "C01_lua_mixed_cmp_exact": "main",
+    "C01_fornum_refuted": "refutation", "C01_fornum_partial": "main",
+    "C01_order_refuted": "refutation",            # witness g(x, f()): known finding `print(counter, inc())`
+    "C01_order_refuted_global": "refutation",     # known finding `print(x + f())` [gcc]
+    "C01_order_refuted_local": "refutation",      # known finding `print(y + fy())` [clang]
+    "C01_order_refuted_args3": "refutation",      # known finding `g(x, f(), h())`
+    "C01_order_wrapper_sequenced": "tripwire",            # regression pins of repaired defects (7b4cb3f, 9e49985):
+    "C01_order_wrapped_args_sequenced": "tripwire",       # the witnesses are still replayed and must agree
+    "C01_order_indirect_store_sequenced": "tripwire",
+    "C01_order_preserved_partial": "main",
+    "C01_vardecl_order_refuted": "refutation",    # two known findings (dropped initializer, trailing multiple-return call)
+    "C01_vardecl_order_iff_policy": "main",
+    "C01_vardecl_order_partial": "main",
+    "C01_tables_agree": "main",
+    "C01_ladder_facts": "tripwire",
+}
+MANIFEST_ENTRY = {
+    "text": "proof, partial: theorems cover int64 + - * unary- & | ~ // % << >> and the six comparisons (= Lua for all operands; division by zero stops both), integer/float comparisons (refuted beyond 2^53, partial below; Lua's side exact), the numeric for loop (refuted at the type limits, partial inside), evaluation order of operands and call arguments (refuted when a function writes a variable another operand reads, proved when no function writes), the order of the values of a multi-variable declaration (refuted for today's generator, source order iff both statements go to defemitter), and the agreement of the two precedence tables under one precedence-climbing function.  Rest on differential testing only: floats, number formatting, strings, control flow, functions, require, the real PEG parser = climb, programs as a whole.",
+    "note": "no axioms; tie: scraped syntaxdefs.lua/lparser.c/cdefs.lua/cbuiltins.lua/cgenerator.lua facts in Gen.v, extracted model run against the real compiler (numdrv.nelua), the reference interpreter rebuilt from /repo/src and generated programs; 16 open findings replayed on every run; depends on coq/C03/{CSem,Helpers}.v and coq/C09/VarDecl.v (copied by sync_shared)",
+    "technique": "Coq theorems about an executable Gallina model + generated parameters + behavioural correspondence of the extracted model; differential testing against reference Lua",
+}
 
 
 def coq_match(name, typ, table, keys, ctor):
@@ -48,13 +88,27 @@ def coq_match(name, typ, table, keys, ctor):
     return "\n".join(lines)
 
 
+# files maintained in one sub-project and copied (module path rewritten) into the others by gen():
+#   (owner, file) -> users
+SHARED = [
+    ("C03", "CSem", ("C01", "C09")),          # C integer / float semantics with UB
+    ("C03", "Helpers", ("C01", "C09")),       # the emitted run-time helpers
+    ("C03", "ProofsBase", ("C09",)),          # UB-freedom of the division helpers (C09 needs "a passing check returns a value")
+    ("C03", "ProofsDiv", ("C09",)),
+    ("C09", "VarDecl", ("C01",)),             # order of the effects of a multi-variable declaration
+    ("C01", "Order", ("C09",)),               # sequencing model of operands / arguments
+]
+
+
 def sync_shared(pid):
-    """CSem.v / Helpers.v are maintained in coq/C03 and copied (module path rewritten)."""
+    """Copy the shared Coq sources this sub-project uses from their owner (module path rewritten)."""
     out = {}
-    for f in ("CSem", "Helpers"):
-        src = vlib.read(os.path.join(vlib.coq_dir("C03"), f + ".v"))
-        txt = "(* COPY of coq/C03/%s.v (kept in sync by checks/%s.py:gen) *)\n" % (f, pid) + \
-              src.replace("From C03 Require", "From %s Require" % pid)
+    for owner, f, users in SHARED:
+        if pid not in users:
+            continue
+        src = vlib.read(os.path.join(vlib.coq_dir(owner), f + ".v"))
+        txt = "(* COPY of coq/%s/%s.v (kept in sync by checks/%s.py:gen) *)\n" % (owner, f, pid) + \
+              src.replace("From %s Require" % owner, "From %s Require" % pid)
         out[f] = vlib.write_if_changed(os.path.join(vlib.coq_dir(pid), f + ".v"), txt)
     return out
 
@@ -65,13 +119,14 @@ def gen(ctx):
     fl = scrape.scrape_cflags(vlib.repo_read("lualib/nelua/cdefs.lua"))
     guard = scrape.scrape_div_guard(vlib.repo_read("lualib/nelua/cbuiltins.lua"))
     fastw = scrape.scrape_shift_fast_path(vlib.repo_read("lualib/nelua/cbuiltins.lua"))
+    vdp = scrape.scrape_vardecl_policy(vlib.repo_read("lualib/nelua/cgenerator.lua"))
     keys = list(scrape.BINOPS)
     gcc_base = fl["gcc"]["cflags_base"].split()
     clang_base = fl["clang"]["cflags_base"].split()
     txt = "\n".join([
         "(* GENERATED by checks/C01.py from /repo (syntaxdefs.lua, src/lua/lparser.c, lcode.h, cdefs.lua) - do not edit *)",
         "From Coq Require Import ZArith Bool.",
-        "From C01 Require Import Ops.",
+        "From C01 Require Import Ops VarDecl.",
         "Local Open Scope Z_scope.",
         "(* rule number (1 = expror) of the ladder rule whose operator list contains the operator *)",
         coq_match("nelua_level", "Z", lad["binop_level"], keys, scrape.BINOPS),
@@ -92,7 +147,9 @@ def gen(ctx):
         "(* operators.shl/shr/asr: the constant count of the plain-C fast path is compared with the width of the shifted operand *)",
         "Definition shl_fast_width_left : bool := %s." % ("true" if fastw["shl"] else "false"),
         "Definition shr_fast_width_left : bool := %s." % ("true" if fastw["shr"] else "false"),
-        "Definition asr_fast_width_left : bool := %s." % ("true" if fastw["asr"] else "false"),
+        "(* cgenerator.visitors.VarDecl: does the bare initializer of a variable dropped by dead code elimination /",
+        "   the `_asgnret = call` statement of a trailing multiple-return call go to `defemitter` (appended last)? *)",
+        "Definition vardecl_policy : vd_policy := mk_vdp %s %s." % ("true" if vdp["dead_in_def"] else "false", "true" if vdp["asgnret_in_def"] else "false"),
         "",
     ])
     vlib.write_if_changed(os.path.join(vlib.coq_dir(ID), "Gen.v"), txt)
@@ -100,7 +157,8 @@ def gen(ctx):
     bad_tokens = {k: v for k, v in lad["tokens"].items()
                   if scrape.LUA_TOKEN.get(k[2:] if k.startswith("u:") else k) != v}
     return {"nelua_ladder": lad, "lua_priority": lua, "gcc_cflags_base": gcc_base, "clang_cflags_base": clang_base,
-            "tokens_differing_from_lua": bad_tokens, "div_guard_first": guard, "shift_fast_path_compares_left_width": fastw}
+            "tokens_differing_from_lua": bad_tokens, "div_guard_first": guard, "shift_fast_path_compares_left_width": fastw,
+            "vardecl_policy": vdp}
 
 
 # ---------------------------------------------------------------------------
@@ -110,9 +168,9 @@ M64 = 1 << 64
 MAXI = (1 << 63) - 1
 MINI = -(1 << 63)
 BINCODE = {"add": 1, "sub": 2, "mul": 3, "band": 4, "bor": 5, "bxor": 6, "idiv": 7, "imod": 8, "shl": 9,
-           "shr": 10, "lt": 11, "le": 12, "eq": 13, "ne": 14}
+           "shr": 10, "lt": 11, "le": 12, "eq": 13, "ne": 14, "gt": 17, "ge": 18}
 UNCODE = {"unm": 15, "bnot": 16}
-MIXCODE = {"lt_if": 20, "le_if": 21, "lt_fi": 22, "le_fi": 23, "eq_if": 24}
+MIXCODE = {"lt_if": 20, "le_if": 21, "lt_fi": 22, "le_fi": 23, "eq_if": 24, "gt_if": 26, "ge_if": 27, "ne_if": 28}
 FORLIT = {31: 1, 32: -1, 33: 3, 34: -5}
 
 WITNESS_MIXED = "mixed-compare: 9007199254740993 <= 9007199254740992.0 with run-time operands (integer vs number)"
@@ -573,6 +631,17 @@ WITNESS_PROGRAMS = [
     ('program: for i = 1, 2.5 do print(i) end',
      'for i = 1, 2.5 do print(i) end\nfor i = 1, 3 do print(i) end\n',
      'for i = 1, 2.5 do print(i) end\nfor i = 1, 3 do print(i) end\n', 'gcc'),
+    # order of the values of a multi-variable declaration (theorem C01_vardecl_order_refuted, coq/C09/VarDecl.v)
+    ("program: local a, b = f(), g() with b never read, inside a function (f and g print)",
+     "local function f(): integer print('f') return 1 end\nlocal function g(): integer print('g') return 2 end\n"
+     "local function h() local a, b = f(), g() print(a) end\nh()\n",
+     "local function f() print('f') return 1 end\nlocal function g() print('g') return 2 end\n"
+     "local function h() local a, b = f(), g() print(a) end\nh()\n", "gcc"),
+    ("program: local a, b, c = f(), two() inside a function (f and two print)",
+     "local function f(): integer print('f') return 1 end\nlocal function two(): (integer, integer) print('two') return 3, 4 end\n"
+     "local function h() local a, b, c = f(), two() print(a, b, c) end\nh()\n",
+     "local function f() print('f') return 1 end\nlocal function two() print('two') return 3, 4 end\n"
+     "local function h() local a, b, c = f(), two() print(a, b, c) end\nh()\n", "gcc"),
     ("program: show(bump(), bump()) with bump doing g.n = g.n + 1; return g.n",
      "local G = @record{n: integer}\nlocal g: G\nlocal function bump(): integer\n  g.n = g.n + 1\n  return g.n\nend\n"
      "local function show(a: integer, b: integer) print(a, b) end\nshow(bump(), bump())\n",
@@ -744,6 +813,51 @@ def stream_order(ctx, driver, interp, cov):
     return len(cases), len(set(progs.order_model_line(c) for c in cases)), [progs.order_model_line(cases[0])]
 
 
+def stream_vardecl(ctx, driver, interp, cov):
+    """multi-variable declarations whose values print when evaluated: the compiled program and reference Lua
+    against the effect order of coq/C01/VarDecl.v (placement of the statements scraped from cgenerator.lua)"""
+    import random
+    import vardecl
+    rng = random.Random(ctx.rng.getrandbits(40))
+    d = os.path.join(ctx.work, "vardecl")
+    os.makedirs(d, exist_ok=True)
+    per = 60
+    n_cases = n_mm = n_pred = n_same = 0
+    sample = []
+    for bi in range(ctx.scale(1, 8)):
+        cases = [vardecl.gen_case(rng) for _ in range(per)]
+        ntext, ltext = vardecl.batch_programs(cases)
+        rc, mo, me = vlib.sh([driver], input="\n".join(vardecl.model_line(c) for c in cases) + "\n", timeout=120)
+        ml = [vardecl.parse_model(x) for x in mo.strip().split("\n")]
+        idx, rcn, o, e, rl, ol, el = run_program_pair((d, bi, ntext, ltext, interp, "gcc", ()))
+        if rcn != 0 or rl != 0 or len(ml) != len(cases):
+            ctx.violation("harness-run:vardecl", "harness", "vardecl batch failed: nelua rc=%d %s lua rc=%d %s" % (rcn, e[-300:], rl, el[-200:]), failing_input=False)
+            continue
+        on, olua = vardecl.parse_output(o, len(cases)), vardecl.parse_output(ol, len(cases))
+        for k, c in enumerate(cases):
+            n_cases += 1
+            m = ml[k]
+            line = vardecl.model_line(c)
+            if not sample:
+                sample.append(line)
+            if m["wf"] != "1" or on[k][0] != m["dce"] or olua[k][0] != m["src"]:
+                n_mm += 1
+                if n_mm <= 3:
+                    ctx.violation("model-mismatch:vardecl", "correspondence",
+                                  "declaration `%s` (%s): Nelua evaluates %s (model %s), Lua %s (model %s)" % (line, c["form"], on[k][0], m["dce"], olua[k][0], m["src"]),
+                                  detail={"nelua_source": vardecl.programs(c, k)[0], "no_longer_checks": "correspondence stream C01/vardecl"}, failing_input=False)
+            elif on[k][1] != olua[k][1]:
+                ctx.violation("vardecl-values:%s" % line, "oracle", "declaration `%s`: the variables hold %r in Nelua and %r in Lua" % (line, on[k][1], olua[k][1]),
+                              detail={"nelua_source": vardecl.programs(c, k)[0]})
+            elif m["dce"] != m["src"]:
+                n_pred += 1         # the two known defects (C01_vardecl_order_refuted), in the order the model of today's generator predicts
+            else:
+                n_same += 1
+    cov["vardecl"] = {"declarations": n_cases, "source_order": n_same,
+                      "order_differs_as_predicted_by_C01_vardecl_order_refuted": n_pred, "model_mismatches": n_mm}
+    return n_cases, n_cases, sample
+
+
 def correspond(ctx):
     driver = vlib.ocaml_build(ID)
     interp = vlib.ensure_interp()
@@ -754,6 +868,8 @@ def correspond(ctx):
     n3, d3, s3 = stream_programs(ctx, interp, cov)
     n2, d2, s2 = n2 + n3, d2 + d3, s2 + s3
     n3, d3, s3 = stream_order(ctx, driver, interp, cov)
+    n2, d2, s2 = n2 + n3, d2 + d3, s2 + s3
+    n3, d3, s3 = stream_vardecl(ctx, driver, interp, cov)
     n2, d2, s2 = n2 + n3, d2 + d3, s2 + s3
     return {
         "evaluations": n1 + n2,
